@@ -6,7 +6,7 @@ use std::collections::HashSet;
 
 pub struct Stats { pub seen: HashSet<u64>, }
 
-fn hash_lines(ls: &[String]) -> u64 { crate::simx::fnv(ls.iter().flat_map(|l| l.bytes().map(|b| b as u64))) }
+pub fn hash_lines(ls: &[String]) -> u64 { crate::simx::fnv(ls.iter().flat_map(|l| l.bytes().map(|b| b as u64))) }
 
 /// field of a DIGEST line
 pub fn field<'a>(d: &'a str, key: &str) -> Option<&'a str> {
@@ -51,5 +51,24 @@ pub fn gen(out: &mut Out, ex: &mut Exec, seed: u64, thorough: bool) {
         out.hist.hit(&format!("flags_real{}_ign{}_dbg{}", o.real as u8, o.ign as u8, o.dbg as u8));
         run_case(out, ex, &lines, steps, &mut rng, &mut stats, |_, _, _, _| {});
     }
-    out.rule = "random machine states (PC/registers biased to region boundaries, memory around PC filled with mostly-valid instructions with boundary operands and ~8% arbitrary words, random PSR privilege/priority/CC, saved SP, keyboard queue, display, scripted vectored/external interrupts, optional keyboard interrupts), real/virtual traps x ignore_privilege x debug_frames, strict off; 20-60 single steps per case, every step's full observable state compared with the model. distinct = distinct case text; non-trivial = at least 3 successful steps or at least one error/trap/interrupt/frame event".into();
+    // RTI restores whatever PSR word is on the stack, including condition-code fields no instruction produces (000, two or
+    // three bits set): every BR mask against every restored CC field, returning to user and to supervisor mode
+    let mut rng2 = Rng::new(seed ^ 0xB8_0000);
+    for cc in 0..8u16 { for mask in 0..8u16 { for user in [false, true] {
+        let psr = (if user { 0x8000 } else { 0 }) | (cc << 8 & 0x0700) | cc;
+        let lines: Vec<String> = vec![format!("case rti-br-{cc}-{mask}-{}", user as u8), format!("sim new 0 {} 0 0 0000", (cc + mask) % 2), "sim mmap fff0 ssp".into(),
+            "sim rawmem 1000 8000/ffff".into(), format!("sim rawmem 3000 {:04x}/ffff 1021/ffff 1021/ffff 1021/ffff 1021/ffff", mask << 9 | 2),
+            format!("sim rawmem 2ffe 3000/ffff {:04x}/ffff", psr), "sim rawreg 6 2ffe ffff".into(), "sim rawreg 0 0000 ffff".into(),
+            "sim hostwrite fffc 0002 ffff 1 0 0 0".into(), "sim hostwrite fff0 fe00 ffff 1 0 0 0".into(), "sim setpc 1000".into()];
+        out.hist.hit("rti_then_branch");
+        run_case(out, ex, &lines, 4, &mut rng2, &mut stats, |out, prev, cur, all| {
+            // implementation-side oracle: a BR at x3000 is taken exactly when its mask meets the CC field of the PSR
+            if field(prev, "pc") == Some("3000") && cur.starts_with("ok") {
+                let pcc = u16::from_str_radix(field(prev, "psr").unwrap_or("0"), 16).unwrap_or(0) & 7;
+                let want = if mask & pcc != 0 { "3003" } else { "3001" };
+                if field(cur, "pc") != Some(want) { out.fail(out.lines, format!("BR mask {mask:03b} with CC {pcc:03b}: PC {} (expected {want})", field(cur, "pc").unwrap_or("?")), all.join("\n")); }
+            }
+        });
+    } } }
+    out.rule = "random machine states (PC/registers biased to region boundaries, memory around PC filled with mostly-valid instructions with boundary operands and ~8% arbitrary words, random PSR privilege/priority/CC, saved SP, keyboard queue, display, scripted vectored/external interrupts, optional keyboard interrupts), real/virtual traps x ignore_privilege x debug_frames, strict off; plus RTI-then-BR cases for every (restored CC field, BR mask, return mode); 20-60 single steps per case, every step's full observable state compared with the model. distinct = distinct case text; non-trivial = at least 3 successful steps or at least one error/trap/interrupt/frame event".into();
 }
